@@ -30,7 +30,10 @@ C09RunOK(e) ==
 NodeFamOK(e) ==
   /\ e.members > 0
   /\ e.panics = 0
-  /\ (e.state = "estab-plain" /\ e.src = "peer") \/ (e.bad_other = 0 /\ (e.prop = "c01" => e.bad_tail = 0))
+  /\ \/ (e.state = "estab-plain" /\ e.src = "peer")
+     \/ e.mode = "nopanic"           \* verbatim genuine datagrams of another handshake: they verify; only "no panic" is demanded
+     \/ (e.bad_other = 0 /\ (e.prop = "c01" => e.bad_tail = 0))
+  /\ e.state # "unexpected"
   /\ e.then_completes # "no"
 
 \* C01: after a reliable exchange in which everybody dials everybody, two nodes are peers exactly when each trusts the
